@@ -32,7 +32,8 @@ DynPathMatches(ic, pat, p) ==
   CASE pat = "/x/@m"   -> x \in {"/x/ab", "/x/a"}
     [] pat = "/x/@m/y" -> x \in {"/x/ab/y"}
     \* upper-case literal in the pattern: without the flag only the exact spelling matches
-    [] pat = "/X/@m"   -> IF ic THEN x \in {"/x/ab", "/x/a"} ELSE p \in {"/X/ab"}
+    \* ("/X/@n" is the same expression with the marker under another name: only captures differ)
+    [] pat \in {"/X/@m", "/X/@n"} -> IF ic THEN x \in {"/x/ab", "/x/a"} ELSE p \in {"/X/ab"}
     [] pat = "/X/@m/y" -> IF ic THEN x \in {"/x/ab/y"} ELSE p \in {"/X/ab/y"}
     [] OTHER -> FALSE
 
